@@ -1,4 +1,4 @@
-import AsynqModel.Core.Machine
+import AsynqModel.Core.Base
 /-
   Reference semantics: plain sequential, depth-first evaluation of a task program.  No scheduler, no stack,
   no batches: the outcome of every future is a pure function of its definition (the `den` of DESIGN.md 3.2).
